@@ -23,21 +23,28 @@ DRIVER = "dm_slicing"
 LEAN_MODULES = ["DaskModel.Props.C21"]
 CASE_TIMEOUT_S = 30
 LEVEL_TEXT = (
-    "Lean 4 theorems over a transliteration of the integer logic of parse_assignment_indices (slice branch) and "
-    "of the per-block planning of setitem_array: for every axis length and slice, after normalisation the "
-    "reformatted slice has a positive step and selects the original positions (in opposite order iff the axis "
-    "is flagged reversed) and the implied size is the selection length (parse_spec, full); for every chunk list the "
-    "per-block slices tile the parsed slice (each selected position is assigned in exactly one block), "
-    "block_index_size and n_preceding are the counts the value slices need, so the value pieces "
-    "[n_preceding, n_preceding+size) partition the value in selection order, and over all blocks the assigned "
-    "(position, value element) pairs are exactly zip(selected positions, value) (setitem1d_den); the same tiling for integer-array and "
-    "boolean indices; the reversed value slice reads the mirrored positions. The N-d assembly (broadcast axes, "
-    "offsets between array and value axes) and the dask-mask `where` path are validated, not proved."
+    "Lean 4 theorems (no size bound) over transliterations of parse_assignment_indices (slice branch) and of "
+    "setitem_array. Per axis: after normalisation the reformatted slice has a positive step and selects the "
+    "original positions (reversed iff flagged), implied size = selection length (parse_spec); for every chunk list "
+    "the per-block slices tile the parsed slice, block_index_size / n_preceding are the counts the value slices "
+    "need, and over all blocks the assigned (position, value element) pairs are exactly zip(selected positions, "
+    "value) (setitem1d_den); the same for integer-array indices (last write wins as in NumPy) and boolean pieces; a "
+    "reversed value piece reads the mirrored positions. N-d: the per-block loop over the dimensions (with its "
+    "overlaps=False/break) succeeds iff every axis overlaps and collects the per-axis block indices / sizes / "
+    "n_preceding in axis order (nd_block_indices, nd_block_sizes); a vector of (array position, value position) "
+    "pairs is assigned by some block iff it is NumPy's pair on every axis (setitem_nd_den). The value-index "
+    "bookkeeping (offset between array and value axes, broadcast size-1 axes, extra leading axes, reversal, Ellipsis) "
+    "is modelled (SetItemND.planND) and diffed block by block against the real plan, not proved. Validated only: "
+    "dask-array indices, the `where` path for full-shape masks, the chunk function `setitem` (function level: equals "
+    "NumPy on a copy, never writes into its input block, result does not alias it), values/masks/indices derived "
+    "from the same array under the sync and threaded schedulers with the source re-computed afterwards."
 )
 LEVEL_NOTE = (
-    "Trusted: Lean kernel; the hand-written model, diffed on every run against parse_assignment_indices and "
-    "against the plan the real setitem_array builds (recorded through a proxy value, no source hook); NumPy "
-    "assignment on one block; the plan replayed on NumPy must equal NumPy's own assignment."
+    "Trusted: Lean kernel; the hand-written models SetItem / SetItemND, diffed on every run against "
+    "parse_assignment_indices and against the complete plan the real setitem_array builds (block indices per block and "
+    "the value indices it requests, recorded through a proxy value, no source hook); the recorded plan replayed on "
+    "NumPy must equal NumPy's own assignment; NumPy assignment x_block[block_indices] = v_piece on one block is the "
+    "per-axis product; the scheduler runs each setitem task once with the blocks it names."
 )
 TECHNIQUE = "Lean 4 proof (range splitting over the chunk list, counting lemmas) + differential correspondence (plan level and API level) with NumPy"
 ASSUMPTIONS = [
@@ -45,7 +52,7 @@ ASSUMPTIONS = [
     "np.where(cond)[0] lists the positions where cond holds in increasing order; np.sum of a bool array counts True",
     "NumPy assignment x_block[block_indices] = v_piece on one block",
 ]
-TRUSTED = ["dask.array.slicing.setitem (chunk function) / NumPy assignment on a single block"]
+TRUSTED = ["NumPy assignment on a single block (the chunk function dask.array.slicing.setitem is checked at function level against it)"]
 
 FANCY = ("list", "bool", "dalist", "dabool")
 
